@@ -30,7 +30,7 @@ EXPRS = [
 REGEXES = [
     r"re.compile('abc')", r"re.compile(r'\d+(?P<name>[a-z]*)\1(?P=name)')", r"re.compile(r'(?(1)yes|no)')", r"re.compile(r'(a)(?(1)b|c)')", r"re.compile(r'(?P<n>x)?(?(n)y|z)')",
     r"re.compile(r'(?=a)(?!b)(?<=c)(?<!d)')", r"re.compile(r'(?i)abc(?-i:d)')", r"re.compile(r'(?aiLmsux)x') ", r"re.compile(r'[a-z\d\]^-]+?[^\W_]*')", r"re.compile(r'a{2,5}?b{3}c{,4}d{1,}')",
-    r"re.compile('a{99999999999999999999999}')", r"re.compile('a{4294967296}')", r"re.compile('(')", r"re.compile('[')", r"re.compile('*')", r"re.compile('(?P<1>a)')", r"re.compile(r'\')",
+    r"re.compile('a{99999999999999999999999}')", r"re.compile('a{4294967296}')", r"re.compile('(')", r"re.compile('[')", r"re.compile('*')", r"re.compile('(?P<1>a)')", r"re.compile('\\')", r"re.compile(r'\\')",
     r"re.compile(b'by\xfftes[\x00-\x1f]')", r"re.compile(rb'(?P<b>\d)')", r"re.compile('''multi\nline # c''', re.VERBOSE)", r"re.compile('a|b|', re.I | re.M)", r"re.compile(pattern='kw', flags=re.S)",
     r"re.compile()", r"re.compile(*args)", r"re.compile(x)", r"re.compile(1)", r"re.compile('a', 'b', 'c')", r"re.compile(r'\A\b\B\Z^$.')", r"re.compile(r'(?:non)(cap)(?#comment)')",
     r"re.compile(r'\x41\u00e9\U0001F600\N{DASH}\071\0')", r"re.compile('\ud800')", r"re.compile(r'(?>atomic)a*+b++c?+')", r"re.compile('(?s:.)(?P<a>(?P<b>x))')",
@@ -146,7 +146,32 @@ def _stmt(draw: Any, depth: int, ctx: str) -> List[str]:
         kinds = ['special', 'assign', 'import', 'attrdoc']
     if ctx == 'class':
         kinds = kinds + ['oldschool']
+    if ctx in ('class', 'module') and depth < 3:
+        kinds = kinds + ['overloads']
     k = draw(st.sampled_from(kinds))
+    if k == 'overloads':
+        # an overloaded function: overloads before the implementation, sometimes one more after it (too late: reported and skipped),
+        # sometimes no implementation at all, sometimes other decorators around @overload
+        name = draw(st.sampled_from(['f', 'g', 'ov']))
+        me = 'self, ' if ctx == 'class' else ''
+        spell = draw(st.sampled_from(['overload', 'overload', 'typing.overload', 't.overload']))
+        out = ['from typing import overload', 'import typing', 'import typing as t']
+
+        def one(ann: str) -> List[str]:
+            decos = ['@' + spell]
+            extra = draw(st.sampled_from([None, None, None, 'staticmethod', 'classmethod', 'functools.wraps(g)', 'd[0]']))
+            if extra:
+                decos = (decos + ['@' + extra]) if draw(st.booleans()) else (['@' + extra] + decos)
+            return decos + ['def %s(%sa: %s) -> %s: ...' % (name, me, ann, ann)]
+        for ann in draw(st.lists(st.sampled_from(['int', 'str', '"C"', 'bytes', 'None']), min_size=1, max_size=3)):
+            out += one(ann)
+        if draw(st.integers(0, 4)) > 0:
+            out += ['def %s(%sa):' % (name, me)] + _ind(_docstring(draw(st.sampled_from(DOCS)), draw(st.integers(0, 9))) + ['return a'])
+            if draw(st.integers(0, 2)) == 0:
+                out += one('float')
+                if draw(st.booleans()):
+                    out += ['class After:', '    def meth(self): pass', 'def after(): pass']
+        return out
     if k == 'oldschool':
         # a method that is wrapped after its definition, once or several times, possibly on top of a decorator
         name = draw(st.sampled_from(['f', 'g', 'm', 'x']))
